@@ -276,6 +276,23 @@ class SourceIndex:
                 return m.group(1), tr
         raise Unsupported('cannot resolve derive span %s:%d' % (f, l1))
 
+    def load_structs(self):
+        """field types of the crate's own structs (needed for drop glue of local types that are not summarised)"""
+        import glob
+        self.structs = {}
+        for path in glob.glob(self.repo + '/src/*.rs'):
+            txt = open(path).read()
+            txt = re.sub(r'//[^\n]*', '', txt)
+            for m in re.finditer(r'struct (\w+)\s*(<[^{;(]*>)?\s*(?:where[^{]*)?\{([^}]*)\}', txt):
+                fields = []
+                for part in split_top(m.group(3)):
+                    part = re.sub(r'#\[[^\]]*\]', '', part).strip()
+                    part = re.sub(r'^pub(\([a-z]+\))?\s+', '', part)
+                    if ':' in part:
+                        fn, ft = part.split(':', 1)
+                        fields.append((fn.strip(), ft.strip()))
+                self.structs[m.group(1)] = fields
+
     def load_enums(self):
         import glob
         for path in glob.glob(self.repo + '/src/*.rs'):
@@ -306,6 +323,7 @@ class Program:
         self.bodies = mirparse.parse_mir(mir_text)
         self.src = SourceIndex(repo_dir)
         self.src.load_enums()
+        self.src.load_structs()
         self.methods = {}    # (selfhead, trait|None, method) -> body
         self.free = {}       # name -> body   (free functions, trait defaults 'Trait::m')
         self.closures = {}   # closure type string -> body
@@ -1059,7 +1077,7 @@ class Engine:
             return
         if hs in ('MaybeUninit', 'ManuallyDrop', 'PhantomData', 'NonNull', 'Cell', 'Layout', 'Global', 'Level',
                   'LevelFilter', 'Kind', 'Link', 'WeakInner', 'Arguments', 'Argument', 'GlobalLogger', 'NonZero',
-                  'AllocError', 'LayoutError', 'Iter', 'Range', 'ExtractIf', 'Ordering', 'Infallible', 'Location',
+                  'AllocError', 'LayoutError', 'Iter', 'IterMut', 'Range', 'ExtractIf', 'Ordering', 'Infallible', 'Location',
                   'Formatter', 'DebugStruct', 'Entry', 'Error', 'OccupiedEntry', 'VacantEntry', 'RawOccupiedEntryMut'):
             return
         if ty == 'T' or ty == 'Self':
@@ -1099,6 +1117,26 @@ class Engine:
             return
         if hs == 'IntoIter':
             v = self.read(ptr)
+            if isinstance(v, Agg) and v.name == 'VecIntoIter':
+                o = self.heap[v.fields[0]]
+                ety = ty_args(ty)[0] if ty_args(ty) else 'T'
+                first = None
+                for x in o.value[v.fields[1]:]:
+                    if x is UNINIT:
+                        continue
+                    try:
+                        self.drop_value(x, ety)
+                    except Panic as p:
+                        if first is not None:
+                            raise Abort('second panic while dropping the rest of a vec::IntoIter')
+                        first = p
+                if not o.live:
+                    raise UB('double-free', 'Vec buffer released twice')
+                o.live = False
+                self.events.append(('free', 'vec', v.fields[0]))
+                if first is not None:
+                    raise first
+                return
             self.free_container(Own(v.fields[0]))
             return
         if hs in ('Map', 'Filter'):
@@ -1186,6 +1224,25 @@ class Engine:
             return
         if hs == 'Pin':
             self.drop_in_place(ptr, ty_args(ty)[0], fr)
+            return
+        # a struct defined in the crate itself: its Drop impl (if any), then its fields in declaration order
+        if hs in self.P.src.structs and hs not in ('Rc', 'Weak', 'RcBox'):
+            b = self.P.methods.get((hs, 'Drop', 'drop'))
+            first = None
+            if b is not None:
+                try:
+                    self.run_body(b, [ptr], ty)
+                except Panic as p:
+                    first = p
+            for k, (fn, ft) in enumerate(self.P.src.structs[hs]):
+                try:
+                    self.drop_in_place(ptr.field(k), ft, fr)
+                except Panic as p:
+                    if first is not None:
+                        raise Abort('second panic while dropping the fields of %s' % hs)
+                    first = p
+            if first is not None:
+                raise first
             return
         raise Unsupported('drop glue for type %s' % ty)
 
